@@ -38,15 +38,23 @@ func checkLenInt(r *core.Run, fn *ssa.Function) {
 	var neg, pos *ssa.BasicBlock
 	for _, b := range fn.Blocks {
 		if iff, ok := b.Instrs[len(b.Instrs)-1].(*ssa.If); ok {
-			if bo, ok := iff.Cond.(*ssa.BinOp); ok && bo.Op == token.LSS && bo.X == param {
-				if c, ok := bo.Y.(*ssa.Const); ok && c.Value != nil && constant.Sign(c.Value) == 0 {
+			if bo, ok := iff.Cond.(*ssa.BinOp); ok {
+				// i < 0 / 0 > i: the true edge is the negative side; i >= 0 / 0 <= i: the true edge is the non-negative side
+				isZero := func(v ssa.Value) bool {
+					c, ok := v.(*ssa.Const)
+					return ok && c.Value != nil && c.Value.Kind() == constant.Int && constant.Sign(c.Value) == 0
+				}
+				switch {
+				case bo.Op == token.LSS && bo.X == param && isZero(bo.Y), bo.Op == token.GTR && bo.Y == param && isZero(bo.X):
 					neg, pos = b.Succs[0], b.Succs[1]
+				case bo.Op == token.GEQ && bo.X == param && isZero(bo.Y), bo.Op == token.LEQ && bo.Y == param && isZero(bo.X):
+					pos, neg = b.Succs[0], b.Succs[1]
 				}
 			}
 		}
 	}
 	if neg == nil {
-		r.Unknown("LenInt shape", fn.Pos(), "no `i < 0` test found")
+		r.Unknown("LenInt shape", fn.Pos(), "no sign test of the argument (`i < 0`, `i >= 0`) found")
 		return
 	}
 	okPos, okNeg, okMin := false, false, false
